@@ -279,6 +279,23 @@ Matches(S, t, newLog, blank) ==
 (* Is the region cut by the terminal height in candidate c?                *)
 IsCut(S, c) == Len(Cut(RegionLines(S, c), S.h, S.w)) < Len(RegionLines(S, c))
 
+(* Static blocks of the region that the cut left out, wholly or in part: a *)
+(* finished bar that was dropped while the terminal had no room for it may *)
+(* never be painted again (C02: a dropped bar's lines disappear; one that   *)
+(* finished visibly MAY remain), so such a block may vanish from then on.   *)
+RECURSIVE EndsFrom(_, _, _, _)
+EndsFrom(S, bs, j, acc) ==     \* <<bar, index of its last region line>> for the bars of the region
+    IF j > Len(bs) THEN {}
+    ELSE LET n == acc + (IF S.bars[bs[j]].drawn THEN Len(S.bars[bs[j]].pend) ELSE 0)
+         IN {<<bs[j], n>>} \cup EndsFrom(S, bs, j + 1, n)
+CutOffStatics(S, c) ==
+    LET ri == RegItems(c)
+        bs == [j \in 1..Len(ri) |-> ri[j].b] \o c.order
+        n == Len(Cut(RegionLines(S, c), S.h, S.w))
+    IN {e[1] : e \in {x \in EndsFrom(S, bs, 1, 0) : x[2] > n /\ S.bars[x[1]].static}}
+MarkCutOff(S, c, bars) ==
+    LET co == CutOffStatics(S, c) IN [b \in DOMAIN bars |-> IF b \in co THEN [bars[b] EXCEPT !.mayVanish = TRUE] ELSE bars[b]]
+
 (* Rows the expected screen occupies, blank ones included.                 *)
 ExpRows(S, c, blank, k) == RowsOf(TopLines(S, c, blank) \o ShownCut(S, c, blank), S.w)
 
